@@ -10,7 +10,7 @@ TRUSTED = ['harness/treegen.py: the tree grammar, the speller (every free choice
            'harness/htmlnorm.py: CommonMark\'s test normalisation',
            'Spec/Spell.v: the Coq twin of the grammar for the kernel sweep (independent of the parser model)',
            'the pipeline model (tied by X-doc on the generated texts); vm_compute for the sweep']
-ASSUMPTIONS = ['unbounded theorem on a fragment: one-line plain paragraphs, quotes and single-item lists (all markers, padding 1-4), any size and depth, '
+ASSUMPTIONS = ['unbounded theorem on a fragment: one-line plain paragraphs, fenced code blocks, quotes and single-item lists (all markers, padding 1-4), any size and depth, '
                'a list last among its siblings: the block tokenizer returns exactly the pre-token tree written from the tree (C03_fragment_parses); the fragment '
                'stream runs the same trees on the implementation',
                'PARTIAL beyond the fragment: in the kernel the HTML statement is bounded to the family stated in C03_bounded_trees; the full grammar is sampled on the implementation',
@@ -67,9 +67,16 @@ FRAG_WORDS = ['alpha', 'b', 'Zed', 'x1', 'end.', 'q)', '(r', 'a-b', 'c+d', 'e=f'
 FRAG_FIRST = [w for w in FRAG_WORDS if w[0] not in '#*+-0123456789<>[_`~']
 
 
+FRAG_CODE = ['code', '  x = 1', '', '# not a heading', '- not a list', '> not a quote', '    deep', '*a*', '<b>', '| a |', '[x]: /y', 'a  b  ']
+
+
 def frag_tree(rng, depth):
     r = rng.random()
     if depth == 0 or r < 0.4:
+        if rng.random() < 0.25:
+            ch = rng.choice('`~')
+            body = [l for l in (rng.choice(FRAG_CODE) for _ in range(rng.randint(0, 4))) if not l.lstrip(' ').startswith(ch) and (l == '' or l.strip(' '))]
+            return ('f', ch * rng.randint(3, 5), body)
         return ('p', ' '.join([rng.choice(FRAG_FIRST)] + [rng.choice(FRAG_WORDS) for _ in range(rng.randint(0, 4))]))
     kids = [frag_tree(rng, depth - 1) for _ in range(rng.randint(1, 3))]
     kids = [k if (i == len(kids) - 1 or k[0] != 'i') else ('q', [k]) for i, k in enumerate(kids)]     # a list only as the last sibling
@@ -82,6 +89,8 @@ def frag_tree(rng, depth):
 def frag_spell(t):
     if t[0] == 'p':
         return [t[1]]
+    if t[0] == 'f':
+        return [t[1]] + t[2] + [t[1]]
     kids = t[-1]
     inner = []
     for i, k in enumerate(kids):
@@ -98,6 +107,8 @@ def frag_expect(t, ln):
     """(dumped tree, line numbers in pre-order)"""
     if t[0] == 'p':
         return [trees.TAGS['Paragraph'], [[0, t[1]]]], [ln]
+    if t[0] == 'f':
+        return [trees.TAGS['CodeFence'], 0, t[1], '', '', ''.join(l + '\n' for l in t[2])], [ln]
     kids = t[-1]
     ds, ls = [], []
     cur = ln
@@ -186,7 +197,7 @@ def run(ctx, only=None):
             ftexts.append(text)
         if not ok:
             ctx.failing.append({'interface': 'oracle(fragment)', 'input': {'text': text, 'seed': seed, 'depth': depth},
-                                'what': 'a tree of plain paragraphs, quotes and single-item lists does not parse to the tree it was written from', 'observed': got, 'expected': want, 'kf': None})
+                                'what': 'a tree of plain paragraphs, fenced code, quotes and single-item lists does not parse to the tree it was written from', 'observed': got, 'expected': want, 'kf': None})
     xdoc.run(ctx, texts + ftexts, cfgs=(0,))
 
 
